@@ -119,6 +119,13 @@ def header_of_emission(p, e, hdr_adt):
         if base[0] == 'ref' and base[1][1][0] == 'local':
             k = (base[1][1][1], base[1][1][2])
             v = p.env.get(k) or p.mem.get(('loc', base[1][1], ()))
+            if v is not None and v[0] == 'agg' and v[3]:
+                # later stores to single fields of the header local (`header.op = ..`) override the aggregate's values
+                ops = list(v[2])
+                for mk, mv in p.mem.items():
+                    if mk[1] == base[1][1] and len(mk[2]) == 1 and mk[2][0][0] == 'f' and mk[2][0][1] in v[3]:
+                        ops[v[3].index(mk[2][0][1])] = mv
+                v = (v[0], v[1], tuple(ops), v[3])
         elif base[0] == 'refto':
             v = base[1]
         if v is not None and v[0] == 'agg' and v[1].startswith(hdr_adt):
@@ -621,6 +628,15 @@ class RangeFolder(Folder):
             return 1 if 0 <= lo2 <= hi2 <= hi - lo else 0
         if t[0] == 'call' and t[2].endswith('::len') and t[3]:
             a = t[3][0]
+            a0 = a
+            while a0[0] in ('cast', 'conv', 'idcall'):
+                a0 = a0[3] if a0[0] == 'cast' else a0[2]
+            if a0[0] == 'refto':
+                a0 = a0[1]
+            if a0[0] == 'agg' and a0[1].startswith('core::ops::Range::'):
+                # length of an index range (ExactSizeIterator::len), not of a slice
+                lo, hi = self.ev(a0[2][0]), self.ev(a0[2][1])
+                return max(0, hi - lo)
             if any(x[0] == 'call' and (x[2].endswith('::get') or '::split_at' in x[2]) for x in subterms(a)) or \
                     any(x[0] == 'loc' and any(pp[0] == 'idx' for pp in x[2]) for x in subterms(a)):
                 kind, lo, hi = self.slice_range(a)
